@@ -357,7 +357,8 @@ class Builder:
             kw["sections"] = rnd.choice([secs, set(secs)])
             kw["proxies"] = rnd.choice([prox, set(prox)])
             kw["symbols"] = rnd.choice([syms, set(syms), iter(syms)])
-            if d["entry_point"] and rnd.random() < 0.5:
+            if d["entry_point"] and d["entry_point"] in self.nodes and \
+                    rnd.random() < 0.5:
                 kw["entry_point"] = self.nodes[d["entry_point"]]
             self.st("attach:module-children:parent-ctor")
         nm = "tmp" if name_late else d["name"]
@@ -399,7 +400,8 @@ class Builder:
                 self.section(x, obj)
             for x in d["symbols"]:
                 self.symbol(x, obj)
-        if d["entry_point"] and obj.entry_point is None:
+        if d["entry_point"] and obj.entry_point is None and \
+                d["entry_point"] in self.nodes:
             obj.entry_point = self.nodes[d["entry_point"]]
         for s in d["sections"]:
             for bi in s["intervals"]:
@@ -447,6 +449,11 @@ class Builder:
             for m in mods:
                 self.module(m, ir)
         self.nodes[sp["uuid"]] = ir
+        for m in mods:  # entry points in modules built later
+            if m["entry_point"] and \
+                    self.nodes[m["uuid"]].entry_point is None:
+                self.nodes[m["uuid"]].entry_point = \
+                    self.nodes[m["entry_point"]]
         edges = []
         for e in sp["edges"]:
             lab = None
